@@ -284,6 +284,8 @@ def run_link_property(ctx, pid, gen_cases, oracle, classify, rule, nontrivial, a
                     ck["src"] = ck["srcs"][k + 1]
                     ck["srcs"] = None
                     ck["links"] = 1
+                    ls = cases[i].get("link_start") or []
+                    ck["started"] = ls[k + 1] if k + 1 < len(ls) else 0      # the instant this connection was established
                 cases.append(ck)
                 results.append(m)
             r["more"] = None
@@ -299,6 +301,28 @@ def run_link_property(ctx, pid, gen_cases, oracle, classify, rule, nontrivial, a
         if w:
             failing.append((case_cost(c), i, w))
     failing.sort()
+    # a proof obligation or the tie no longer checks and nothing fails so far: look harder for a failing input before reporting
+    # no-failing-input-found - further rounds of the property's generators with fresh seeds, judged by the oracle alone
+    deep_rounds = 0
+    if not failing and (not proof["build_ok"] or getattr(ctx, "pure_unavailable", None)):
+        for k in range(8 if ctx.tier == "quick" else 40):
+            gen2, _ = gen_cases(ctx, C.Rng(ctx.seed).fork("%s/deep%d" % (pid, k)))
+            res2 = run_impl(ctx, gen2, pid.lower() + "_deep")
+            deep_rounds += 1
+            for c, r in zip(gen2, res2):
+                if r and r.get("hang"):
+                    if hang_is_failure:
+                        cases.append(c); results.append(r)
+                        failing.append((case_cost(c), len(cases) - 1, "wedged: an API operation or the teardown never completed (no progress for 8 s of real time)"))
+                    continue
+                w = oracle(c, r)
+                if w:
+                    cases.append(c); results.append(r)
+                    failing.append((case_cost(c), len(cases) - 1, w))
+            if failing:
+                break
+        failing.sort()
+        ctx.log("deep search: %d further rounds of generated scripts, %d failing" % (deep_rounds, len(failing)))
     if wedged and not hang_is_failure:
         ctx.notes.append("%d scripts wedged (lock-up of finding F8, judged by C07/C16) and are inconclusive for this property" % wedged)
     model_ok = os.path.exists(os.path.join(C.COQ, "Run", "LinkRun.vo"))
@@ -364,6 +388,8 @@ def run_link_property(ctx, pid, gen_cases, oracle, classify, rule, nontrivial, a
         cov.update(extra_cov(cases, results))
     cov.update(side_cov)
     cov["oracle_failures"] += len(side)
+    if deep_rounds:
+        cov["deep_search_rounds"] = deep_rounds
     C.write_evidence(ctx, cov, assumptions, nviol)
     return rc
 
